@@ -148,8 +148,53 @@ def gen_antenna(rng, families=None, max_pulses=25, ground=None):
     return ant
 
 
+def gen_curved(rng):
+    """antennas with arcs, helices and tapered wires (free space)"""
+    f = 10 ** rng.uniform(0.5, 2.0)
+    lam = C / f
+    seg = lam / rng.uniform(15, 40)
+    rad = seg / rng.uniform(12, 60)
+    kind = rng.choice(['arc', 'helix', 'taper', 'taper-bent'])
+    objs = []
+    if kind == 'arc':
+        n = rng.randint(4, 9)
+        R = seg * n / rng.uniform(2.0, 4.0)
+        objs.append(dict(kind='arc', nseg=n, radius=R, a1=0.0, a2=rng.choice([120.0, 180.0, 270.0]), r=rad))
+        objs.append(dict(kind='wire', nseg=rng.randint(2, 4), p0=[R, 0.0, 0.0], p1=[R + seg * 3, 0.0, -seg], r=rad))
+    elif kind == 'helix':
+        n = rng.randint(8, 14)
+        ln = seg * n / 4
+        objs.append(dict(kind='helix', nseg=n, length=ln, turnlen=ln / 1.5, r=rad, rx=seg * 1.2, ry=seg * 1.2))
+    elif kind == 'taper':
+        n = rng.randint(5, 9)
+        objs.append(dict(kind='wire', nseg=n, p0=[0.0, 0.0, 0.0], p1=[0.0, seg * n * 1.5, seg * n], r=rad / 3, segtype=rng.choice([1, 2, 3])))
+    else:
+        n = rng.randint(4, 7)
+        objs.append(dict(kind='wire', nseg=n, p0=[0.0, 0.0, 0.0], p1=[0.0, 0.0, seg * n * 1.5], r=rad / 3, segtype=2))
+        objs.append(dict(kind='wire', nseg=rng.randint(3, 5), p0=[0.0, 0.0, seg * n * 1.5], p1=[seg * 4, seg, seg * n * 1.5], r=rad))
+    return dict(f=f, ground=False, objs=objs, family=kind, lam=lam, seg=seg)
+
+
+def build_objs(ant):
+    from mininec.mininec import Mininec, Wire, Arc, Helix
+    gs = []
+    for o in ant['objs']:
+        if o['kind'] == 'arc':
+            gs.append(Arc(o['nseg'], o['radius'], o['a1'], o['a2'], o['r']))
+        elif o['kind'] == 'helix':
+            gs.append(Helix(o['nseg'], o['length'], o['turnlen'], o['r'], o['rx'], o['ry']))
+        else:
+            w = Wire(o['nseg'], *o['p0'], *o['p1'], o['r'])
+            if o.get('segtype'):
+                w.segtype = o['segtype']
+            gs.append(w)
+    return Mininec(ant['f'], gs)
+
+
 def build(ant, media=None):
     from mininec.mininec import Mininec, Wire, ideal_ground
+    if 'objs' in ant:
+        return build_objs(ant)
     ws = [Wire(w['nseg'], *w['p0'], *w['p1'], w['r']) for w in ant['wires']]
     if media is None:
         media = [ideal_ground] if ant['ground'] else None
